@@ -27,9 +27,10 @@ func init() {
 		NotDecided:  []string{"nil dereferences in general", "resource exhaustion", "panics inside callees outside the module"},
 		NeedsCG:     true,
 		Rules: []core.Rule{
-			{ID: "C13-R1", Title: "no explicit panic controlled by peer input", Decides: "no bytes a peer can send make a handler panic", Floor: 3, Run: c13r1},
-			{ID: "C13-R2", Title: "slice and index bounds on peer bytes are proved", Decides: "truncated / short items do not panic", Floor: 4, Run: func(c *core.Ctx) {
+			{ID: "C13-R1", Title: "no explicit panic controlled by peer input; the controllers' session field is never nil", Decides: "no bytes a peer can send make a handler panic", Floor: 3, Run: func(c *core.Ctx) { c13r1(c); controllerSessionNeverNil(c) }},
+			{ID: "C13-R2", Title: "slice and index bounds on peer bytes are proved; constant indices into map-held slices are guarded", Decides: "truncated / short items do not panic", Floor: 4, Run: func(c *core.Ctx) {
 				c13r2(c)
+				constIndexOfMapSliceGuarded(c, "tlv8", "util")
 				inputIndexGuarded(c, "tlv8", "util", "hap/pair", "hap/endpoint", "hap", "crypto", "crypto/chacha20poly1305", "crypto/hkdf", "crypto/curve25519")
 			}},
 			{ID: "C13-R3", Title: "no single-value type assertion on decoded request values", Decides: "arbitrary JSON (wrong types) does not panic", Floor: 2, Run: c13r3},
